@@ -53,6 +53,12 @@ LEVEL_TEXT += (
     "cell indices: no truth-value reduction (np.any, .all(), bare truth "
     "value, ...) over it or its local aliases, and the mesh is returned "
     "unrefined only under a test that proves the set empty.")
+LEVEL_TEXT += (
+    " Added in the hunting round (defects found by independent agents "
+    "on the unchanged tree, DESIGN.md 9.4 / 9.6): "
+    "the 1-D class reduces the marked array to a set; edge-length "
+    "decisions are dimensionally homogeneous; capacity of the "
+    "tetrahedral work arrays (open findings); periodic classes refuse.")
 LEVEL_NOTE = ("Trusted: numpy hstack/vstack/arange/reshape. The reference "
               "facet is the one opposite... precisely: local facet 2 = "
               "vertices (0, 2), read from RefTri.facets.")
